@@ -23,7 +23,7 @@ WHERE = ['class', 'instance', 'getattr', 'inherited', 'slot']    # where the cal
 CALLABLE = ['none', 'value', 'falsy', 'raises', 'raisesAttributeError', 'raisesTypeError']
 
 
-def one(conform, provided, hooks, alt, custom, where='class'):
+def one(conform, provided, hooks, alt, custom, where='class', custom_where='own'):
     log = []
     if custom == 'no':
         class IF(Interface):
@@ -36,6 +36,16 @@ def one(conform, provided, hooks, alt, custom, where='class'):
                 if custom == 'raises':
                     raise E1('custom')
                 return None if custom == 'none' else 'custom-value'
+        if custom_where == 'inherited':
+            # the custom __adapt__ comes from a base interface
+            class IF(IF):
+                pass
+        elif custom_where == 'inherited+other':
+            # ... and the interface defines another interface method of its own
+            class IF(IF):
+                @interfacemethod
+                def helper(self):
+                    return 1
 
     def conform_fn(iface):
         log.append('conform')
@@ -154,7 +164,7 @@ def one(conform, provided, hooks, alt, custom, where='class'):
     exp, elog = spec()
     if got != exp or log != elog:
         return [('precedence', 'conform=%s (found through: %s) provided=%s hooks=%r alternate=%s custom __adapt__=%s: result %r after steps %r; '
-                 'the statement gives %r after steps %r' % (conform, where, provided, hooks, alt, custom, got, log, exp, elog))]
+                 'the statement gives %r after steps %r' % (conform, where, provided, hooks, alt, custom + ('' if custom_where == 'own' else ' (%s)' % custom_where), got, log, exp, elog))]
     return []
 
 
@@ -193,13 +203,21 @@ def replay(*args):
 
 def run(ctx):
     ctx.rule = ('full product: __conform__ in %r x provided x hook lists of length <=2 over %r x alternate x custom __adapt__ in %r; '
-                '__conform__ found on the class, in the instance dictionary, in a slot, through __getattr__ or on a base class; '
+                'custom __adapt__ defined on the interface itself or inherited from a base interface (with/without other interface methods); __conform__ found on the class, in the instance dictionary, in a slot, through __getattr__ or on a base class; '
                 'result/exception and the exact sequence of executed steps compared with the decision list of the statement; '
                 'distinct = points of the product' % (CONFORM, HOOK, CUSTOM))
     ctx.bounds = 'hook list length <= 2 (quick) / 3 (thorough)'
     maxh = 2 if ctx.tier == 'quick' else 3
     hook_lists = list(itertools.chain.from_iterable(itertools.product(HOOK, repeat=k) for k in range(maxh + 1)))
     for point in itertools.product(CONFORM, [False, True], hook_lists, [False, True], CUSTOM):
+        if ctx.too_many():
+            return
+        ctx.case(point)
+        for sig, what in one(*point):
+            ctx.violation(sig + repr(point), what, 'from falsify.C14 import replay\nreplay(*%r)\n' % (point,))
+    # a custom __adapt__ inherited from a base interface (with and without further interface methods of its own)
+    for point in itertools.product(['absent', 'none', 'value'], [False, True], short_hooks_ := [h for h in hook_lists if len(h) <= 1], [False, True],
+                                   CUSTOM[1:], ['class'], ['inherited', 'inherited+other']):
         if ctx.too_many():
             return
         ctx.case(point)
